@@ -1393,7 +1393,13 @@ def case_hash(case: Dict[str, Any]) -> str:
 
 
 def n_workers() -> int:
-    return max(1, min(16, os.cpu_count() or 1))
+    """Worker processes per check: at most 6 (VERIF_WORKERS may lower or raise the cap up to 16)."""
+    cap = 6
+    try:
+        cap = max(1, min(16, int(os.environ.get("VERIF_WORKERS", "6"))))
+    except ValueError:
+        pass
+    return max(1, min(cap, os.cpu_count() or 1))
 
 
 def run_parallel(worker: Callable[[Any], Any], jobs: Sequence[Any], chunksize: int = 8) -> List[Any]:
